@@ -19,7 +19,7 @@ pub fn generate(tier: &str, rng: &mut Prng) -> Vec<Case> {
     let bset = [0i64, 1, 2, 6143, 6144, 6145, 6146, 12287, 12288];
     for &a in &bset {
         for &b in &bset {
-            for op in ["felt_add", "felt_sub", "felt_mul", "felt_multiply"] {
+            for op in ["felt_add", "felt_sub", "felt_mul", "felt_multiply", "felt_add_assign", "felt_sub_assign", "felt_mul_assign"] {
                 push(format!("{op} {a} {b}"));
             }
             if b != 0 {
@@ -32,6 +32,21 @@ pub fn generate(tier: &str, rng: &mut Prng) -> Vec<Case> {
         push(format!("felt_value {a}"));
     }
     push("felt_div 5 0".into());
+    // the compound-assignment operators have implementations of their own: pairs that sum to q, differ by 0, multiply to
+    // multiples of q, and random pairs
+    for i in 0..(if tier == "thorough" { 20000 } else { 1500 }) {
+        let a = rng.range(0, Q - 1);
+        let b = match i % 4 {
+            0 => (Q - a) % Q,
+            1 => a,
+            _ => rng.range(0, Q - 1),
+        };
+        let op = ["felt_add_assign", "felt_sub_assign", "felt_mul_assign"][(i / 4) % 3];
+        push(format!("{op} {a} {b}"));
+    }
+    for v in [0usize, 1, 12288, 12289, 12290, 24578, 32767] {
+        push(format!("felt_from_usize {v}"));
+    }
     // rows of the operation tables: complete in the thorough tier, sampled in the quick one
     let rows: Vec<i64> = if tier == "thorough" {
         (0..Q).collect()
@@ -129,7 +144,8 @@ fn applicable(op: &[&str]) -> bool {
     let canon = |s: &str| s.parse::<i64>().map(|v| (0..Q).contains(&v)).unwrap_or(false);
     match op[0] {
         "felt_new" | "felt_new_all" | "felt_unary_all" | "felt_row" => true,
-        "felt_add" | "felt_sub" | "felt_mul" | "felt_multiply" => canon(op[1]) && canon(op[2]),
+        "felt_add" | "felt_sub" | "felt_mul" | "felt_multiply" | "felt_add_assign" | "felt_sub_assign" | "felt_mul_assign" => canon(op[1]) && canon(op[2]),
+        "felt_from_usize" => true,
         "felt_div" => canon(op[1]) && canon(op[2]) && op[2] != "0",
         "felt_neg" | "felt_inv" | "felt_balanced" | "felt_value" => canon(op[1]),
         "felt_batch_inv" | "felt_hadamard_div" => true,
@@ -191,6 +207,16 @@ fn check(op: &[&str], out: &str) -> Option<String> {
                 }
             }
             None
+        }
+        "felt_from_usize" => expect(modq(op[1].parse().unwrap()).to_string()),
+        "felt_add_assign" | "felt_sub_assign" | "felt_mul_assign" if canon(op[1]) && canon(op[2]) => {
+            let (a, b): (i64, i64) = (op[1].parse().unwrap(), op[2].parse().unwrap());
+            expect(modq(match op[0] {
+                "felt_add_assign" => a + b,
+                "felt_sub_assign" => a - b,
+                _ => a * b,
+            })
+            .to_string())
         }
         "felt_add" | "felt_sub" | "felt_mul" | "felt_multiply" | "felt_div" if canon(op[1]) && canon(op[2]) => {
             let (a, b): (i64, i64) = (op[1].parse().unwrap(), op[2].parse().unwrap());
